@@ -17,6 +17,7 @@ import (
 	"strconv"
 	"strings"
 	"sync"
+	"sync/atomic"
 	"time"
 )
 
@@ -81,6 +82,112 @@ type Sched struct {
 	Invariant   func() // evaluated after every step, all tasks parked
 	dead        bool
 	HarnessErr  []string
+
+	// dense preemption (instrumenter rule 7): statement-level preemption points in front of stores to shared memory,
+	// conditions that read it and loop bodies; armed in a fraction of the runs
+	denseMode     int // 0 off, 1 the sites of one hash bucket, 2 drawn visit numbers
+	denseBucket   uint32
+	denseSkip     int
+	denseLeft     int
+	densePts      map[int]bool
+	denseN        int
+	force         *Task
+	DensePreempts int
+	DenseVisits   int
+}
+
+const denseBuckets = 48
+
+var denseArmed atomic.Bool
+
+// ConfigureDense draws whether (and how) this run preempts tasks at the statement-level points the instrumenter
+// inserted (rule 7). A zero draw is "off", so a minimised replay has it only when it matters.
+func (s *Sched) ConfigureDense() string {
+	denseArmed.Store(false)
+	s.denseMode = 0
+	switch s.Ch.Int("dense", 8) {
+	case 5, 6:
+		s.denseMode = 1
+		s.denseBucket = uint32(s.Ch.Int("dense", denseBuckets))
+		s.denseSkip = []int{0, 0, 1, 2, 5, 17}[s.Ch.Int("dense", 6)]
+		s.denseLeft = 1 + s.Ch.Int("dense", 4)
+		denseArmed.Store(true)
+		return fmt.Sprintf("dense(bucket=%d,skip=%d,n=%d)", s.denseBucket, s.denseSkip, s.denseLeft)
+	case 7:
+		s.denseMode = 2
+		n := []int{40, 150, 600, 2500, 10000}[s.Ch.Int("dense", 5)]
+		d := 1 + s.Ch.Int("dense", 5)
+		s.densePts = map[int]bool{}
+		for i := 0; i < d; i++ {
+			s.densePts[1+s.Ch.Int("dense", n)] = true
+		}
+		denseArmed.Store(true)
+		return fmt.Sprintf("dense(points=%d,in=%d)", d, n)
+	}
+	return ""
+}
+
+// ForceDense arms every site (used by scenarios that exist only to interleave straight-line code): each visit
+// preempts with chance 1/den.
+func (s *Sched) ForceDense(den int) {
+	s.denseMode = 3
+	s.denseLeft = den
+	denseArmed.Store(true)
+}
+
+// Dense is a statement-level preemption point (instrumenter rule 7). When it fires the calling task parks and the
+// scheduler's next choice is another task, if one is enabled.
+func Dense(site string) {
+	if !denseArmed.Load() {
+		return
+	}
+	s := Active
+	if s == nil || s.denseMode == 0 {
+		return
+	}
+	hit := false
+	switch s.denseMode {
+	case 1:
+		h := fnv.New32a()
+		h.Write([]byte(site))
+		if h.Sum32()%denseBuckets == s.denseBucket {
+			s.DenseVisits++
+			if s.denseSkip > 0 {
+				s.denseSkip--
+			} else if s.denseLeft > 0 {
+				s.denseLeft--
+				hit = true
+			}
+		}
+	case 2:
+		s.denseN++
+		s.DenseVisits++
+		hit = s.densePts[s.denseN]
+	case 3:
+		t := s.cur()
+		if t == nil {
+			return
+		}
+		s.DenseVisits++
+		if s.Ch.Int("dense", s.denseLeft) == s.denseLeft-1 {
+			s.mu.Lock()
+			s.force = t
+			s.mu.Unlock()
+			s.park(t, "dense:"+site, nil)
+		}
+		return
+	}
+	if !hit {
+		return
+	}
+	t := s.cur()
+	if t == nil {
+		return
+	}
+	s.mu.Lock()
+	s.force = t
+	s.mu.Unlock()
+	s.park(t, "dense:"+site, nil)
 }
 
 // Active is the installed scheduler (nil = transparent mode: every primitive
@@ -100,11 +207,20 @@ func goid() uint64 {
 func New(ch *Chooser, wait func()) *Sched {
 	s := &Sched{byGoid: map[uint64]*Task{}, Ch: ch, arrived: make(chan struct{}, 1<<16), wait: wait,
 		start: time.Now(), logH: fnv.New64a(), ilvH: fnv.New64a(), TraceMax: 60, Probes: map[string]int{}}
+	denseArmed.Store(false)
 	return s
 }
 
 // ConfigureStrategy draws the run's scheduling strategy (swarm style).
 func (s *Sched) ConfigureStrategy() string {
+	name := s.configureStrategy()
+	if d := s.ConfigureDense(); d != "" {
+		name += "+" + d
+	}
+	return name
+}
+
+func (s *Sched) configureStrategy() string {
 	switch s.Ch.Int("strategy", 6) {
 	case 0:
 		s.Strat = StratUniform
@@ -421,6 +537,7 @@ func (s *Sched) InterleavingHash() uint64 { return s.ilvH.Sum64() }
 
 func (s *Sched) pick(en []*Task) *Task {
 	if len(en) == 1 {
+		s.force = nil
 		return en[0]
 	}
 	s.Decisions++
@@ -437,6 +554,20 @@ func (s *Sched) pick(en []*Task) *Task {
 		en[0] = l
 	}
 	var t *Task
+	if f := s.force; f != nil {
+		s.force = nil
+		if lastIdx >= 0 && en[0] == f {
+			// a dense preemption point fired: somebody else runs now
+			t = en[1+s.Ch.Int("dense", len(en)-1)]
+			if s.Strat == StratPCT {
+				s.pctLow--
+				f.prio = s.pctLow
+			}
+			s.DensePreempts++
+			s.Preemptions++
+			return t
+		}
+	}
 	switch s.Strat {
 	case StratSticky:
 		if lastIdx >= 0 {
